@@ -167,6 +167,15 @@ CLAIMED["C15"] = dict(cat="other", technique="clamp-on-every-path analysis over 
         "stencil moment. Numerical coincidence of blob centroid and particle, and ensemble statistics, are NOT decided.",
    note="One genuine defect repaired (F9: stochastic model unclamped and damping towards grid row 0). NaN coordinates are outside the statement.",
    ref="DESIGN.md §3 C15")
+CLAIMED["C17"] = dict(cat="other", technique="enumerated obligation classes: symbolic bounds (max index vs. allocation extent over loop ranges and unsigned guards), stream-extraction discipline and definite assignment by CFG dataflow, foreign-container subscripts, guarded integer division",
+   text="Whole-program memory safety is NOT claimed (no tool here can numerically interpret this C++ with its libraries). Claimed are five obligation classes enumerated exhaustively over the "
+        "program: (R1) 100+ loop-indexed accesses to the work arrays of the anchored classes stay below the extent of their allocation site, decided symbolically for all sizes (N >= 8) from loop "
+        "ranges, unsigned wrap guards and the extent table, undischarged obligations being reported; (R2) values extracted with >> are read only after the stream was tested; (R3) every scalar "
+        "local is assigned on all paths to each use; (R4) loops subscripting another object's container are bounded by its size; (R5) integer division/modulo by run-time values is guarded "
+        "by a non-zero test. Each class is a necessary condition of the statement for the input classes it names (short/empty/malformed files, wrong sizes).",
+   note="Three defects repaired (F10 unchecked extraction, F11 operator+= over-read, F13 readPhaseSpace), three recorded as known findings (F12 padded position vs transform length x2, "
+        "F17 Fokker-Planck table overrun for a grid that does not contain zero energy). Library internals and float-to-integer conversions are not analysed.",
+   ref="DESIGN.md §3 C17")
 NOT_YET = "check not built yet in this round (static rule designed in DESIGN.md §3, not implemented)"
 NA = {}
 
